@@ -432,6 +432,7 @@ func scenBatchWriter(t *tr.W, r *rand.Rand) {
 
 func Run(t *tr.W, thorough bool) {
 	r := tr.Rng(17)
+	rcf := tr.Rng(1717) // own stream: the cfheaders-sync scenario does not shift the draws of the others
 	n := 12 * tr.EnvInt("VERIF_BUDGET", 1)
 	if thorough {
 		n *= 4
@@ -451,6 +452,10 @@ func Run(t *tr.W, thorough bool) {
 		scenRescan(t, r, false)
 		if i%3 == 0 {
 			scenReorgStop(t, r) // opens real stores: a few per run
+		}
+		if i%6 == 0 {
+			// writes >= 16000 headers to real stores: two per quick run, one with each kind of reader
+			scenCFCheckptStop(t, rcf, []string{"stalled", "slow"}[(i/6)%2])
 		}
 	}
 	// recorded finding F8, reproduced once per run (costs one deadline)
